@@ -18,3 +18,4 @@ open GoDcp GoDcp.Obs.C03 GoDcp.C03
 #print axioms vbuckets_independent
 #print axioms vbuckets_independent'
 #print axioms deliveries_own_reopen_refuted
+#print axioms skipUntil_subsecond_ceil
